@@ -131,8 +131,10 @@ def _mk_protocol(ctx, gw_choice):
     got = []
     with running(loop):
         p = PortProtocol(got.append)
-    p._exclude = SymList("blk")
-    p._include = SymList("knw", ["63:262142", "--:------"])
+    # what the real __init__ put into the lists for *empty* configured lists (its own sentinels) stays concrete;
+    # membership of every other id is a solver Boolean
+    p._exclude = SymList("blk", list(p._exclude))
+    p._include = SymList("knw", list(p._include))
     enforce = symx.sym_bool(ctx, "enforce")
     p.enforce_include = enforce
     if gw_choice is not None:
